@@ -101,18 +101,19 @@ type EnumConst struct {
 
 // TypeDecl is a declared type: struct, enum (named basic type with constants) or alias.
 type TypeDecl struct {
-	Name        string      `json:"name"`
-	Pkg         string      `json:"pkg"`
-	File        string      `json:"file"`
-	Kind        string      `json:"kind"`              // struct enum alias raw
-	Raw         string      `json:"raw,omitempty"`     // kind raw: declaration text verbatim
-	Imports     []string    `json:"imports,omitempty"` // extra imports the raw text needs
-	Fields      []Field     `json:"fields,omitempty"`
-	Base        string      `json:"base,omitempty"` // enum/alias underlying primitive
-	Consts      []EnumConst `json:"consts,omitempty"`
-	Assigned    bool        `json:"assigned,omitempty"` // type A = string
-	Desc        string      `json:"desc,omitempty"`
-	EmbedsError bool        `json:"embedsError,omitempty"` // struct embedding `error` (custom error type)
+	MultiNameConsts bool        `json:"multiNameConsts,omitempty"` // enum constants of the type's own file share one ValueSpec: A, B T = 1, 2
+	Name            string      `json:"name"`
+	Pkg             string      `json:"pkg"`
+	File            string      `json:"file"`
+	Kind            string      `json:"kind"`              // struct enum alias raw
+	Raw             string      `json:"raw,omitempty"`     // kind raw: declaration text verbatim
+	Imports         []string    `json:"imports,omitempty"` // extra imports the raw text needs
+	Fields          []Field     `json:"fields,omitempty"`
+	Base            string      `json:"base,omitempty"` // enum/alias underlying primitive
+	Consts          []EnumConst `json:"consts,omitempty"`
+	Assigned        bool        `json:"assigned,omitempty"` // type A = string
+	Desc            string      `json:"desc,omitempty"`
+	EmbedsError     bool        `json:"embedsError,omitempty"` // struct embedding `error` (custom error type)
 }
 
 type Sec struct {
@@ -174,8 +175,9 @@ type Controller struct {
 	Security   []Sec     `json:"security,omitempty"`
 	Desc       string    `json:"desc,omitempty"`
 	Deprecated bool      `json:"deprecated,omitempty"`
-	Grouped    bool      `json:"grouped,omitempty"` // declared inside type ( ... )
-	RawDoc     []string  `json:"rawDoc,omitempty"`  // when set, replaces the rendered comment block
+	Grouped    bool      `json:"grouped,omitempty"`  // declared inside type ( ... )
+	GroupDoc   string    `json:"groupDoc,omitempty"` // free text above "type (" when grouped
+	RawDoc     []string  `json:"rawDoc,omitempty"`   // when set, replaces the rendered comment block
 	Methods    []*Method `json:"methods"`
 }
 
